@@ -215,7 +215,7 @@ class ExternalVariableCollector(NodeVisitor):
 
     def visit_ExceptHandler(self, node):
         if node.name is not None:
-            self.provenance[node.name] = "body"
+            self.provenance.setdefault(node.name, "body")
             self.assigned.add(node.name)
         self.generic_visit(node)
 
@@ -226,7 +226,7 @@ class ExternalVariableCollector(NodeVisitor):
         for alias in node.names:
             name = alias.asname or alias.name
             name = name.split(".")[0]
-            self.provenance[name] = "body"
+            self.provenance.setdefault(name, "body")
             self.assigned.add(name)
 
     def visit_arg(self, node):
